@@ -70,4 +70,13 @@ theorem C07_select_rank_mirror (b : Bitmap) (h : b.WF) (v : Nat) (hv : v ∈ Bit
 example : Bitmap.rankMirror (Bitmap.insertRange (Bitmap.insert [] 7).1 (.incl 65536) (.excl 70000)).1 65540 = 6 := by
   decide +kernel
 
+/-- `RoaringBitmap::full()` (inherent.rs:35, `Bitmap.full` in `Mirror32.lean`; never executed by the correspondence:
+    2^32 elements) is well-formed, `is_full()` answers `true` on it and it holds exactly 2^32 integers -/
+theorem C07_full : Bitmap.full.WF ∧ Bitmap.isFull Bitmap.full = true ∧
+    (Bitmap.elems Bitmap.full).length = 4294967296 := by
+  refine ⟨Bitmap.full_wf, Bitmap.full_isFull, ?_⟩
+  have h := C07_isFull Bitmap.full Bitmap.full_wf
+  rw [Bitmap.full_isFull] at h
+  simpa [Spec.isFull, u32Max] using h.symm
+
 end Roaring.C07
